@@ -14,7 +14,8 @@ EXTENDS Naturals, Sequences, TLC
 CONSTANTS Datasets,       \* e.g. {"D1","D2"}
           Seeds,          \* e.g. {0,1}
           MaxCalls,
-          FitLeavesCohort \* TRUE (as documented): after a fit the model state keeps the training data and latent values
+          FitLeavesCohort,\* TRUE (as documented): after a fit the model state keeps the training data and latent values
+          Script          \* <<>>: any history; otherwise the sequence of calls to make (directed histories for the replay)
 VARIABLES params,   \* <<"init">> | <<"fit", dataset, seed, previous params>> | <<"file", params>>
           pop,      \* "mode": population variables are the modes of their priors under params | "diverged"
           data,     \* "none" or the dataset whose tensors sit in the model state
@@ -69,7 +70,9 @@ APersoMode == \E D \in Datasets, s \in Seeds : PersoMcmc(D, s, "mode")
 ASimulate == \E s \in Seeds : Simulate(s)
 Next == /\ ncalls < MaxCalls
         /\ (AFit \/ AEstimate \/ APersoScipy \/ APersoMean \/ APersoMode \/ ASimulate \/ Save \/ Load \/ BurnRng)
-Spec == Init /\ [][Next]_vars
+\* directed histories: the same actions, restricted to the scripted call at each position
+ScriptedNext == /\ ncalls < Len(Script) /\ Next /\ act' = Script[ncalls + 1]
+Spec == Init /\ [][IF Script = <<>> THEN Next ELSE ScriptedNext]_vars
 -----------------------------------------------------------------------------
 IsQuery(r) == r[1] \in {"estimate", "scipy", "mean", "mode", "simulate"}
 \* C13: a query result is a function of (call, params, inputs, seed) only -- by construction of the term: 4 components
